@@ -448,6 +448,21 @@ func exportMode(pairsFile, out string, workers int) {
 			}
 		}
 	}
+	// quick tier: the plain / inline spellings of every other state (the special spellings are all kept)
+	if smp := os.Getenv("VERIF_EXPORT_SAMPLE"); smp == "2" {
+		var kept []job
+		n := 0
+		for _, j := range jobs {
+			if j.variant == "plain" || j.variant == "inline" {
+				n++
+				if n%2 == 0 {
+					continue
+				}
+			}
+			kept = append(kept, j)
+		}
+		jobs = kept
+	}
 	res := make([]exportObs, len(jobs))
 	var wg sync.WaitGroup
 	ch := make(chan int)
